@@ -26,6 +26,7 @@ struct c10_cfg {
 	struct c10_shape shapes[C10_MAXSHAPES];
 	int reduced_answers;  /* 0: accept k for EVERY k in 1..total; 1: boundary set only */
 	int short_budget;     /* >0: after that many short writes inside one operation the kernel only answers {all, EAGAIN, error} */
+	int path_short_budget; /* >0: at most that many short writes along one path, then {all, EAGAIN, error} */
 	int sticky_error;     /* 1: hard error = EPIPE and the socket stays dead; 0: ENOBUFS, transient */
 	int memo;             /* 1: merge equal intermediate code states inside one operation */
 	int jobs;
